@@ -163,6 +163,26 @@ META = {
         ],
         run_cap_s=120, shrink_tests=300, shrink_s=60,
     ),
+    "C15": _m(
+        "M", "exploration", (500, 200000), (300, 3000),
+        "Each run = one generated model program (world-M generator plus unnamed nodes/vars, groups, seeded nodes, shared inputs), "
+        "built with copy on/off, followed by a history of 4-14 ops: assignments, auto-update toggles, updates, set_seed, round trips "
+        "(pop + rebuild, copy_nodes_and_vars + rebuild, deepcopy, save/load through BytesIO and through a scratch file), F6 "
+        "mutate-attempts (every guarded mutator of Node, Calc, Dist, Var incl. transform) and invalid constructions (duplicate node / "
+        "var / group names, reserved name, cycles via set_inputs and via Dist.at). Non-trivial = at least one round trip or mutate "
+        "attempt; distinct = distinct (program shape, op-kind sequence).",
+        "build / pop / copy / save / load / mutate-attempt / assignment operations",
+        "distinct (program shape incl. unnamed/seeded flags, op-kind sequence) tuples",
+        ["liesel.model: GraphBuilder.build_model, Model.__init__/pop_nodes_and_vars/copy_nodes_and_vars/__deepcopy__/state/set_seed, save_model/load_model (dill), no_model_setter/no_model_method guards, Group"],
+        ["node functions (call-counted primitives)", "BytesIO / per-run scratch directory as the disk"],
+        [
+            "'identical state' = same node names, bit-identical values and outdated flags; for pop / copy_nodes_and_vars the model is updated first (a rebuild recomputes everything)",
+            "'identical behaviour' = after the same subsequent assignment both models have bit-identical states; 'independent' = an assignment to one leaves the other's state unchanged",
+            "any exception counts as rejection of an invalid graph / a mutate attempt; the structural digest (inputs, names, flags, functions, dist, at, groups) must be unchanged",
+            "no torn/short-write faults on the dill file: no property states a durability contract",
+        ],
+        run_cap_s=120, shrink_tests=300, shrink_s=60,
+    ),
 }
 
 
@@ -177,6 +197,15 @@ NOT_APPLICABLE["C18"] = (
 )
 
 MANIFEST_TEXT = {
+    "C15": dict(
+        technique="deterministic simulation with fault injection: seeded build/pop/copy/save/load/mutate-attempt histories on generated graphs; rejected-operation faults; round-trip twins compared state-for-state",
+        design_ref="DESIGN.md section 4 C15, section 3 world M",
+        level_text="Seeded search over graph programs (groups, seeded nodes, unnamed nodes, shared inputs) x op histories mixing round trips, "
+        "assignments, F6 mutate-attempts and invalid constructions; structural invariants (closure, outputs = inverse of inputs, unique "
+        "names), frozen-ness (structure digest unchanged, exception raised), and round-trip twins (equal state, equal behaviour, "
+        "independence) are checked at every step. Sampling, not a proof.",
+        level_note="Trusted: dill/pickle, networkx. Node functions are stubs; all of liesel.model is real.",
+    ),
     "C17": dict(
         technique="deterministic simulation: seeded model programs and pre-histories, differential twins over the auto-update setting, tight-link ancestral oracle",
         design_ref="DESIGN.md section 4 C17, section 3 world M",
